@@ -907,3 +907,15 @@ def inconsistent_trees(r, n):
         toks = _wrap(r, inner, levels - own)
         out.append(("nesting=%d" % levels if levels <= 64 else "nesting>64", toks))
     return out
+
+
+def corpus_lines(prop):
+    """the non-comment lines of corpus/<prop>/*.case (minimised past failures and audit witnesses; run first)"""
+    import glob
+    out = []
+    for f in sorted(glob.glob(os.path.join(HERE, "corpus", prop, "*.case"))):
+        for line in open(f):
+            line = line.strip()
+            if line and not line.startswith("#"):
+                out.append(line)
+    return out
